@@ -591,6 +591,26 @@ func runEngine(x *ids, query string, docs []*gedcom.Document) (v V) {
 	return x.encode(res)
 }
 
+// runReused evaluates one compiled query twice: on other documents first, then on docs (Evaluate registers the
+// documents as Document1.. each time)
+func runReused(x *ids, query string, first, docs []*gedcom.Document) (v V) {
+	defer func() {
+		if r := recover(); r != nil {
+			v = V{"t": "panic", "s": fmt.Sprint(r)}
+		}
+	}()
+	eng, err := q.NewParser().ParseString(query)
+	if err != nil {
+		return V{"t": "parse-error", "s": err.Error()}
+	}
+	eng.Evaluate(first)
+	res, err := eng.Evaluate(docs)
+	if err != nil {
+		return V{"t": "err"}
+	}
+	return x.encode(res)
+}
+
 func sizeOf(v V) int {
 	n := 1
 	if l, ok := v["v"].([]V); ok {
@@ -724,6 +744,15 @@ func Eval(w io.Writer, seed int64, n int) error {
 					e.A = runEngine(x3, "Combine("+E+", "+E+") | Length", docs)
 					e.B = runEngine(x3, E+" | Length", docs)
 					enc.Encode(e)
+					// a compiled query used again on other documents: the documents of this evaluation count
+					other := []*gedcom.Document{familyDoc(rng, 1+rng.Intn(3))}
+					for _, qq := range []string{"Document1 | " + E + " | Length", "D is Document1; D | " + E + " | Length", E + " | Length"} {
+						er := emptyObs("equiv")
+						er.Law, er.Q = "engine-reuse", qq
+						er.A = runEngine(x3, qq, docs)
+						er.B = runReused(x3, qq, other, docs)
+						enc.Encode(er)
+					}
 					cond := g.condition(t.Elem())
 					cond.normalise()
 					neg := *cond
